@@ -53,6 +53,10 @@ def gen_case(rnd):
         comps = [base] + rnd.sample([c for c in COMPS if c != base], n - 1)
         if rnd.random() < 0.5:
             comps.append(base + "_x")
+    elif rnd.random() < 0.04:
+        # many components (12-25): wide rules, many violated rules in one aggregate
+        comps = [f"c{i}" for i in rnd.sample(range(1, 40), rnd.randint(12, 25))]
+        return _gen_case(rnd, base, comps, many=True)
     elif rnd.random() < 0.12:
         # layouts like mysite/mysite/urls.py: dotted component names that start with the base module's own name
         base = rnd.choice(["app", "a"])
@@ -61,10 +65,10 @@ def gen_case(rnd):
     return _gen_case(rnd, base, comps)
 
 
-def _gen_case(rnd, BASE, comps):
+def _gen_case(rnd, BASE, comps, many=False):
     n = len(comps)
     pairs = [(a, b) for a in comps for b in comps if a != b]
-    rel = rnd.sample(pairs, rnd.randint(0, min(len(pairs), 6)))
+    rel = rnd.sample(pairs, rnd.randint(0, min(len(pairs), 6)) if not many else rnd.randint(15, 60))
     top = BASE.split(".")[0]
     mods = sorted({top, BASE, f"{top}.other", f"{BASE}.by1", f"{BASE}.by2"}) + [f"{BASE}.{c}" for c in comps]
     subs = {}
@@ -78,7 +82,7 @@ def _gen_case(rnd, BASE, comps):
     for a, b in rel:
         imps.add((member(a), member(b)))
     pert = []
-    for _ in range(rnd.choice([0, 0, 1, 1, 2, 3])):
+    for _ in range(rnd.choice([0, 0, 1, 1, 2, 3]) if not many else rnd.randint(0, 45)):
         k = rnd.choice(["drop", "add-undrawn", "bystander", "from-sub", "into-bystander-sub", "other"])
         if k == "drop" and imps:
             e = rnd.choice(sorted(imps))
@@ -113,7 +117,7 @@ def diagram_spec(rnd, comps, rel, prefix=None):
     for c in comps:
         if decl[m[c]][0] == "none" and c not in referenced:
             decl[m[c]] = ("[n]", None)
-    arrow_forms = [(rnd.choice(rpuml.ARROWS), rnd.choice(rpuml.REF_FORMS), rnd.choice(rpuml.REF_FORMS), "up") for _ in rel]
+    arrow_forms = [(rnd.choice(rpuml.ARROWS), rnd.choice(rpuml.REF_FORMS), rnd.choice(rpuml.REF_FORMS), rnd.choice(c06.WORDS)) for _ in rel]
     return {"components": names, "relation": [(m[a], m[b]) for a, b in rel], "decl": decl, "arrow_forms": arrow_forms}
 
 
